@@ -18,6 +18,8 @@
                         decoder accepts exactly the byte strings node_from_stream accepts, and
                         yields the same tree and the same remaining input; it raises only
                         ValueError("bad encoding" / "blob too large"), never IndexError
+     C28_decoder_current  the same for the decoder the translator found in ser.py on this run,
+                        under the premise that it has that check (false today: F4)
      C28_decoder_known_class  the UNREPAIRED decoder already agrees on every byte string that
                         contains no byte 0xfe
      C28_refuted        (finding F4) the unrepaired decoder accepts fe 00 00 00 00 00 01 61
@@ -57,6 +59,12 @@ Definition agrees {A} (p : pyres A) (r : res A) : Prop :=
 Theorem C28_decoder_fixed : forall bs, wf_bytes bs = true ->
   agrees (py_sexp_from_stream (Some 6) bs) (node_from_stream bs).
 Proof. intros bs H. apply py_decoder_agrees. left. split; [reflexivity|exact H]. Qed.
+
+(* the decoder of the CURRENT source (py_current_limit is what the translator read from ser.py on
+   this run): agreement as soon as the source has the check *)
+Theorem C28_decoder_current : py_current_limit = Some 6 -> forall bs, wf_bytes bs = true ->
+  agrees (py_sexp_from_stream py_current_limit bs) (node_from_stream bs).
+Proof. intros E bs H. rewrite E. apply py_decoder_agrees. left. split; [reflexivity|exact H]. Qed.
 
 Theorem C28_decoder_known_class : forall bs,
   forallb (fun b => (b <? 256) && negb (b =? 0xfe)) bs = true ->
@@ -104,6 +112,7 @@ Proof. vm_compute. repeat split. Qed.
 
 Print Assumptions C28_serializer.
 Print Assumptions C28_decoder_fixed.
+Print Assumptions C28_decoder_current.
 Print Assumptions C28_decoder_known_class.
 Print Assumptions C28_refuted.
 Print Assumptions C28_int_from_bytes.
